@@ -63,10 +63,18 @@ class World:
         return eval(PY[name])
 
 
-def run_case(w, rec, wl, wr):
+# the documented presentation keywords of every runtime assertion: they change the wording, never the verdict
+PRESENTATION = {"explanation": {"explanation": "because the exercise says so"}, "context": {"context": "While checking your answer"},
+                "assertion": {"assertion": "your answer to match mine"}}
+
+
+def run_case(w, rec, wl, wr, kw=None):
     from pedal.core.report import MAIN_REPORT as R
     import pedal.assertions.runtime as RT
+    import functools
     fn = getattr(RT, FN[rec["a"]])
+    if kw:
+        fn = functools.partial(fn, **PRESENTATION[kw])
     if rec["a"] in OUT_FAMILY:
         # the execution is always the result of a real call(); the expected text is an instructor-side string
         left = w.S.call("raises") if rec["l"] == "err" else w.S.call(SAYER[rec["l"]])
@@ -106,10 +114,14 @@ def replay_chunk(cases, extra):
                 wraps = [("raw", "raw"), ("proxy", "raw")]
             if rec["a"] in OUT_FAMILY:
                 wraps = [("proxy", "raw")]
-            for wl, wr in wraps:
+            # one of the wrappings is repeated with a presentation keyword (which one rotates with the cell)
+            extra = [(wraps[n % len(wraps)][0], wraps[n % len(wraps)][1], ["explanation", "context", "assertion"][n % 3])]
+            for wl, wr, kw in [(a, b, None) for a, b in wraps] + extra:
                 if rec["l"] == "err" and wl == "raw" or (rec["a"] not in UNARY and rec["r"] == "err" and wr == "raw"):
                     continue
-                o = run_case(w, rec, wl, wr)
+                o = run_case(w, rec, wl, wr, kw)
+                if kw:
+                    o["keyword"] = kw
                 if rec["verdict"] == "any":
                     # unspecified cell: the call must still produce a verdict; where the operands are evaluable
                     # (holds = "X") the assertion and its negation must disagree
